@@ -3,4 +3,4 @@ Require Extraction.
 Require Import ExtrOcamlBasic.
 From Atlas Require Import Base.Bytes Hcl.Str Hcl.RegistryDefs Hcl.Registry Hcl.TypesSqlite Hcl.TypesMysql Hcl.TypesPg.
 Extraction Language OCaml.
-Extraction "model.ml" Sqlite.obs_fmt_sqlite Sqlite.obs_hcl_sqlite Mysql.obs_fmt_mysql Mysql.obs_hcl_mysql Pg.obs_fmt_pg.
+Extraction "model.ml" Sqlite.obs_fmt_sqlite Sqlite.obs_hcl_sqlite Mysql.obs_fmt_mysql Mysql.obs_hcl_mysql Pg.obs_fmt_pg Pg.obs_raw_pg.
